@@ -1,5 +1,5 @@
 import PhyModel.Proofs.RunLoopProofs
-import PhyModel.Proofs.PlacementIdx
+import PhyModel.Proofs.C19Example
 import Mathlib.Tactic.NormNum
 /-! # C19 — a run on valid input completes and records only finite, complete trees
 
@@ -122,36 +122,9 @@ theorem weights_positive (dt : Data) (hG : 0 < dt.G) (c : Proposal.Cfg) (hα : 0
   exact ⟨hq, Density.pMarg_pos dt hG c.α hα _ _ hgood, Density.pOne_pos dt hG c.α hα _ _ hgood,
     Proposal.incrWeight_pos dt hG c hα first last p tq.1 tq.2 hq hgood (fun _ => hp)⟩
 
-/-- the hypotheses are satisfiable: two data points on a 2-point grid, outlier prior 1/2, parent
-state "data point 0 in one clone", placing data point 1 -/
-def exData : Data := { G := 2, S := 1, vals := [[[1/2, 1]], [[1, 1/4]]], op := [1/2, 1/2], sz := [1, 1] }
-def exParent : T := ⟨.cons [0] .nil .nil, []⟩
-
-theorem exGood0 : GoodIdx exData 0 := by
-  refine ⟨fun s hs k hk => ?_, ?_, ?_⟩
-  · have hs' : s = 0 := by (have : s < 1 := hs); omega
-    have hk' : k = 0 ∨ k = 1 := by (have : k < 2 := hk); omega
-    subst hs'
-    rcases hk' with rfl | rfl <;> norm_num [exData, Data.L, getQ]
-  · norm_num [exData, Data.opOf]
-  · norm_num [exData, Data.opOf]
-
-theorem exGood1 : GoodIdx exData 1 := by
-  refine ⟨fun s hs k hk => ?_, ?_, ?_⟩
-  · have hs' : s = 0 := by (have : s < 1 := hs); omega
-    have hk' : k = 0 ∨ k = 1 := by (have : k < 2 := hk); omega
-    subst hs'
-    rcases hk' with rfl | rfl <;> norm_num [exData, Data.L, getQ]
-  · norm_num [exData, Data.opOf]
-  · norm_num [exData, Data.opOf]
-
-theorem exGoodParent : Good exData exParent.f exParent.out := by
-  intro j hj
-  have : j = 0 := by simpa [exParent, Orders.Forest.all] using hj
-  subst this
-  exact exGood0
-
-/-- the theorem applies to this instance, and the table it speaks about is not empty (join the clone,
+/-- the hypotheses are satisfiable (`Proofs/C19Example.lean`: two data points on a 2-point grid, outlier
+prior 1/2, parent state "data point 0 in one clone", placing data point 1), and the table the theorem
+speaks about is not empty there (join the clone,
 new top-level clone, new clone above the existing one, outlier) -/
 example := weights_positive exData (by decide) ⟨.full, 1/10, 1, true⟩ (by norm_num) (by norm_num) (by norm_num)
   false true exParent 1 exGoodParent exGood1
